@@ -39,6 +39,8 @@ type HoRound struct {
 	// they must have no effect. StaleApprove > 0: a cancellation approval for such a withdrawal, which must fail.
 	StaleCancels []int `json:"stale_cancels,omitempty"`
 	StaleApprove int   `json:"stale_approve,omitempty"`
+	// DupDeposit > 0: the deposit batch of this round lists one of its outputs twice and must fail as a whole
+	DupDeposit int `json:"dup_deposit,omitempty"`
 	Shape        int   `json:"shape"` // see hoShapes
 	Mut          int   `json:"mut"`
 	Repeat       int   `json:"repeat"`
@@ -295,7 +297,17 @@ func (w *hoWorld) round(ri int, r HoRound, o *Outcome) *Failure {
 			}
 			keys = append(keys, depKeyOf(b, f.params))
 		}
-		if len(msg.Deposits) > 0 {
+		if r.DupDeposit > 0 && len(msg.Deposits) > 0 && len(msg.Deposits) < 16 {
+			// the same output twice in one batch: the whole batch must fail, nothing may be owed for it
+			msg.Deposits = append(msg.Deposits, msg.Deposits[(r.DupDeposit-1)%len(msg.Deposits)])
+			raw, err := sim.Node.Tx(prop, bump, world.TxOpts{}, msg)
+			if err != nil {
+				return failf("fixture", "tx-build-failed", "%v", err)
+			}
+			txs = append(txs, raw)
+			onOK = append(onOK, nil)
+			mustFail[len(txs)-1] = "a deposit batch listing the same Bitcoin output twice was accepted"
+		} else if len(msg.Deposits) > 0 {
 			raw, err := sim.Node.Tx(prop, bump, world.TxOpts{}, msg)
 			if err != nil {
 				return failf("fixture", "tx-build-failed", "%v", err)
@@ -635,7 +647,11 @@ func (w *hoWorld) round(ri int, r HoRound, o *Outcome) *Failure {
 		code := res.Resp.TxResults[off+i].Code
 		if onOK[i] == nil {
 			if code == 0 && mustFail[i] != "" {
-				return failf("never-duplicated", "ended-withdrawal-refunded-again", "round %d: %s", ri, mustFail[i])
+				sig := "ended-withdrawal-refunded-again"
+				if strings.Contains(mustFail[i], "deposit") {
+					sig = "duplicate-deposit-in-batch-accepted"
+				}
+				return failf("never-duplicated", sig, "round %d: %s", ri, mustFail[i])
 			}
 			if code == 0 {
 				return failf("gap-free-heights", "batch-not-starting-at-tip+1-accepted", "round %d: a block-hash batch starting %+d off the tip was accepted", ri, r.HashStartOff)
@@ -807,6 +823,9 @@ func genHoCase(t *rapid.T) HoCase {
 			for j := 0; j < k; j++ {
 				r.Deposits = append(r.Deposits, rapid.IntRange(0, 11).Draw(t, "dep"))
 			}
+			if rapid.IntRange(0, 5).Draw(t, "dupDep") == 0 {
+				r.DupDeposit = rapid.IntRange(1, 12).Draw(t, "dupDepIdx")
+			}
 		}
 		if rapid.IntRange(0, 3).Draw(t, "badWdRoll") == 0 {
 			r.BadWithdraws = rapid.SampledFrom([]int{1, 2, 9, 12}).Draw(t, "badWd")
@@ -851,7 +870,7 @@ func TestC06_HandOver(t *testing.T) {
 	RunProp(t, Prop[HoCase]{
 		ID: "C06", Name: "handover", Quick: 480, Thor: 8000,
 		Gen: genHoCase, Run: runHoCase,
-		Rule: "histories of 4-24 rounds that fill every queue (voted hash batches of 1-16 hashes incl. batches not starting at tip+1, deposit batches of 1-12, refunds from undecodable addresses and approved cancellations, cancel requests and approvals aimed at withdrawals that were already refunded (no effect / must fail), claims and unlock bursts above the caps, unlocks of a second validator that exits and whose exit delay makes them mature together with later plain unlocks) under six round shapes: real PrepareProposal+ProcessProposal+FinalizeBlock, harness-built honest proposal, proposals prepared 1-3 times but never finalised, proposals whose system section is mutated (drop, duplicate, swap, foreign tx in front, invented tx at the end; block hash and count byte kept consistent) which must be REJECTED and whose message must fail when force-finalised, blocks without an execution-block message, failing execution-block messages; restarts between blocks; oracle: per-kind FIFO model with caps (1 hash, 8 deposits, 8 paid+refund, 16 rewards, 16 unlocks) and per-module nonces, compared with the payload attributes the fake execution layer receives at every prepare and with the leading transactions of every finalised payload; after a drain every owed item was delivered exactly once in order; voted heights are gap-free and never rewritten; non-trivial = a queue exceeded its cap or a non-finalised/rejected/failed round happened with non-empty queues; evaluations count rounds",
+		Rule: "histories of 4-24 rounds that fill every queue (voted hash batches of 1-16 hashes incl. batches not starting at tip+1, deposit batches of 1-12 (some listing one output twice, which must fail as a whole), refunds from undecodable addresses and approved cancellations, cancel requests and approvals aimed at withdrawals that were already refunded (no effect / must fail), claims and unlock bursts above the caps, unlocks of a second validator that exits and whose exit delay makes them mature together with later plain unlocks) under six round shapes: real PrepareProposal+ProcessProposal+FinalizeBlock, harness-built honest proposal, proposals prepared 1-3 times but never finalised, proposals whose system section is mutated (drop, duplicate, swap, foreign tx in front, invented tx at the end; block hash and count byte kept consistent) which must be REJECTED and whose message must fail when force-finalised, blocks without an execution-block message, failing execution-block messages; restarts between blocks; oracle: per-kind FIFO model with caps (1 hash, 8 deposits, 8 paid+refund, 16 rewards, 16 unlocks) and per-module nonces, compared with the payload attributes the fake execution layer receives at every prepare and with the leading transactions of every finalised payload; after a drain every owed item was delivered exactly once in order; voted heights are gap-free and never rewritten; non-trivial = a queue exceeded its cap or a non-finalised/rejected/failed round happened with non-empty queues; evaluations count rounds",
 	})
 }
 
